@@ -195,8 +195,10 @@ def op_thermal_job(w, s):
             w.stats.probes["thermal_h_mpo_model"] += 1
         else:
             job = ThermalProp(init, exact=exact, space=s.get("space", "GS"), evolve_config=ec, auto_expand=False)
-        for _ in range(k):
-            job.evolve(evolve_dt=-1j * tau, nsteps=1)
+        # cooling in stages: the step may change from one evolve() call to the next (factors <= 1 keep every step inside the judged range)
+        stages = (list(s.get("stages") or []) + [1.0] * k)[:k]
+        for f in stages:
+            job.evolve(evolve_dt=-1j * tau * f, nsteps=1)
     except (Violation, HarnessError):
         raise
     except Exception as ex:
@@ -204,9 +206,9 @@ def op_thermal_job(w, s):
     # ---- reference trajectory
     if exact:
         Hloc = kron_sum(local_vib_matrices(model, s.get("space", "GS"), w.model_specs[e.mid]["holstein"]))
-        U = scipy.linalg.expm(-tau * Hloc)
+        Us = [scipy.linalg.expm(-tau * f * Hloc) for f in stages]
     else:
-        U = scipy.linalg.expm(-tau * H)
+        Us = [scipy.linalg.expm(-tau * f * H) for f in stages]
     rho = tens(e).astype(complex)
     x = hn * tau
     bound, why = scheme_bound(c, ec, min(max(x, 1e-6), 10.0), c["method"], True, "mpdm") if not exact else (1e-9, "closed form")
@@ -215,13 +217,13 @@ def op_thermal_job(w, s):
     refs = []
     for i in range(k + 1):
         if i:
-            rho = U @ rho
+            rho = Us[i - 1] @ rho
             rho = rho / np.linalg.norm(rho)
         refs.append(_obs(rho, H, model))
     if len(job.energies) != k + 1:
         raise V({"C10"}, "C10.thermal.bookkeeping", f"job recorded {len(job.energies)} energies after {k} steps")
-    if len(job.evolve_times) != k + 1 or abs(job.evolve_times[-1] - (-1j * tau * k)) > 1e-12 * max(1.0, tau * k):
-        raise V({"C10"}, "C10.thermal.time", f"job clock {job.evolve_times} after {k} steps of {-1j * tau}")
+    if len(job.evolve_times) != k + 1 or abs(job.evolve_times[-1] - (-1j * tau * sum(stages))) > 1e-12 * max(1.0, tau * k):
+        raise V({"C10"}, "C10.thermal.time", f"job clock {job.evolve_times} after steps {[-1j * tau * f for f in stages]}")
     if judged and bound is not None:
         for i in range(k + 1):
             tol = (2 * hn * (i * bound) + 1e-9 * max(hn, 1.0)) * 1.0
@@ -348,6 +350,8 @@ def p_thermal_job(w, rnd):
         h = spec["holstein"]
         if e.meta.get("max_entangled") == "gs":
             s.update(exact=True, space="GS")
+    if s["nsteps"] > 1 and rnd.random() < 0.5:
+        s["stages"] = [rnd.choice([1.0, 0.5, 0.25, 0.75]) for _ in range(s["nsteps"])]
     if not s.get("exact") and rnd.random() < 0.3:
         # Hermitian pairs stay Hermitian only with a common multiplier: one factor for all terms plus exact sign flip of all
         f = round(rnd.uniform(0.4, 1.6), 3) * rnd.choice([1, -1])
